@@ -48,7 +48,8 @@ func (c *consumption) Close() error {
 	}
 
 	c.closed = true
-	c.recvQueue.Signal()
+	// 通过队列锁唤醒：避免消费协程在检查 closed 之后、进入等待之前丢失信号
+	c.recvQueue.Push(nil)
 	return nil
 }
 
